@@ -1095,6 +1095,7 @@ class Frame(registering.StoriedRegistrar):
         """
         over = self.over
         under = self
+        visited = [self]  # frames already passed on the way up
 
         while over: #not beyond top
             if not isinstance(over, Frame): #over is name of frame not ref so resolve
@@ -1121,6 +1122,10 @@ class Frame(registering.StoriedRegistrar):
             else: #over is valid frame reference so don't need to resolve
                 if over == self: #check for loop
                     raise excepting.ResolveError("Outline overs create loop", self.name, under.name)
+
+            if over in visited: #loop among the overs that does not pass through self
+                raise excepting.ResolveError("Outline overs create loop", self.name, over.name)
+            visited.append(over)
 
             under = over
             over = over.over #rise one level
